@@ -1,15 +1,24 @@
 // C14 implementation driver: one constant expression (C text) per stdin line, evaluated by the real
 // library exactly as tests/src/internal/lang/expr.cpp does it (tokenizer_t::tokenize +
-// expressionParser::parse + exprNode::evaluate).  One "R <kind> <value>" line per case:
+// expressionParser::parse + exprNode::canEvaluate/evaluate).  One "R <kind> <value>" line per case:
 //   kind  b i8 u8 i16 u16 i32 u32 i64 u64 f32 f64 ; value decimal (integers) or IEEE bit pattern in hex (floats)
 //   R ERR     the library refused (parse error, occa::exception "Cannot apply operator ...", non-evaluable)
-// Undefined behaviour inside the library (signed overflow, division by zero, bad shift) kills the
-// ASan/UBSan-instrumented process; the framework records that case as "R CRASH ..." and resumes.
+//   R UB      the library's own C++ hit undefined behaviour: UBSan stopped the evaluation (exit code 98)
+//             or the kernel did (SIGFPE)
+//   R CRASH <how>   any other abnormal end of the evaluation (ASan report = exit 97, other signals)
+// Cases are evaluated in a forked child so that one crash costs a fork, not a restart of the
+// instrumented process; the child tokenizes its whole batch in one tokenizer run (lines are separated by
+// the tokenizer's own newline tokens) and falls back to one tokenizer per line if the split does not
+// come out as one token group per line.
 #include <cstdio>
 #include <cstring>
 #include <iostream>
 #include <sstream>
 #include <string>
+#include <vector>
+#include <signal.h>
+#include <sys/wait.h>
+#include <unistd.h>
 
 #include <occa/internal/utils/env.hpp>
 #include <occa/internal/lang/expr.hpp>
@@ -45,25 +54,122 @@ static std::string show(const primitive &p) {
   return o.str();
 }
 
-int main() {
-  std::string line;
-  while (std::getline(std::cin, line)) {
-    std::string res = "ERR";
-    exprNode *expr = NULL;
-    try {
-      tokenVector tokens = tokenizer_t::tokenize(line);
-      expr = expressionParser::parse(tokens);
-      if (expr && expr->canEvaluate()) {
-        primitive v = expr->evaluate();
-        res = show(v);
-      }
-    } catch (occa::exception &e) {
-      res = "ERR";
-    } catch (std::exception &e) {
-      res = "ERR";
+// parse + evaluate one token group (takes ownership of the tokens, as expressionParser does)
+static std::string evalTokens(tokenVector &tokens) {
+  std::string res = "ERR";
+  exprNode *expr = NULL;
+  try {
+    expr = expressionParser::parse(tokens);
+    if (expr && expr->canEvaluate()) {
+      primitive v = expr->evaluate();
+      res = show(v);
     }
-    delete expr;
-    std::cout << "R " << res << std::endl;
+  } catch (occa::exception &e) {
+    res = "ERR";
+  } catch (std::exception &e) {
+    res = "ERR";
+  }
+  delete expr;
+  return res;
+}
+
+static std::string evalLine(const std::string &line) {
+  try {
+    tokenVector tokens = tokenizer_t::tokenize(line);
+    return evalTokens(tokens);
+  } catch (occa::exception &e) {
+    return "ERR";
+  } catch (std::exception &e) {
+    return "ERR";
+  }
+}
+
+static void childRun(const std::vector<std::string> &lines, size_t from, FILE *out) {
+  const size_t n = lines.size() - from;
+  std::vector<tokenVector> groups;
+  bool batched = false;
+  std::string all;   // the tokens point into this buffer (used when the parser prints an error)
+  try {
+    for (size_t i = from; i < lines.size(); ++i) {
+      all += lines[i];
+      all += '\n';
+    }
+    tokenVector tokens = tokenizer_t::tokenize(all);
+    groups.push_back(tokenVector());
+    for (size_t i = 0; i < tokens.size(); ++i) {
+      if (tokens[i]->type() & tokenType::newline) {
+        delete tokens[i];
+        groups.push_back(tokenVector());
+      } else {
+        groups.back().push_back(tokens[i]);
+      }
+    }
+    // n lines, each ended by '\n': n + 1 groups, the last one empty
+    batched = (groups.size() == n + 1) && groups.back().empty();
+    if (!batched) {
+      for (size_t g = 0; g < groups.size(); ++g) freeTokenVector(groups[g]);
+    }
+  } catch (...) {
+    batched = false;
+  }
+  for (size_t i = 0; i < n; ++i) {
+    std::string res;
+    if (batched && !groups[i].empty()) {
+      res = evalTokens(groups[i]);
+    } else {
+      res = evalLine(lines[from + i]);
+    }
+    fprintf(out, "R %s\n", res.c_str());
+    fflush(out);
+  }
+}
+
+int main() {
+  std::vector<std::string> lines;
+  std::string line;
+  while (std::getline(std::cin, line)) lines.push_back(line);
+  // initialise the library's static state once, in the parent
+  evalLine("1");
+
+  size_t k = 0;
+  while (k < lines.size()) {
+    int fd[2];
+    if (pipe(fd) != 0) return 3;
+    fflush(stdout);
+    pid_t pid = fork();
+    if (pid < 0) return 3;
+    if (pid == 0) {
+      close(fd[0]);
+      FILE *out = fdopen(fd[1], "w");
+      childRun(lines, k, out);
+      fflush(out);
+      _exit(0);
+    }
+    close(fd[1]);
+    FILE *in = fdopen(fd[0], "r");
+    char *buf = NULL;
+    size_t cap = 0;
+    ssize_t len;
+    while ((len = getline(&buf, &cap, in)) > 0) {
+      if (buf[len - 1] == '\n') buf[len - 1] = 0;
+      std::cout << buf << std::endl;
+      ++k;
+    }
+    free(buf);
+    fclose(in);
+    int st = 0;
+    waitpid(pid, &st, 0);
+    if (k < lines.size()) {
+      if (WIFEXITED(st) && WEXITSTATUS(st) == 0) return 4;   // child stopped early without dying
+      if ((WIFEXITED(st) && WEXITSTATUS(st) == 98) || (WIFSIGNALED(st) && WTERMSIG(st) == SIGFPE)) {
+        std::cout << "R UB" << std::endl;
+      } else if (WIFEXITED(st)) {
+        std::cout << "R CRASH exit " << WEXITSTATUS(st) << std::endl;
+      } else {
+        std::cout << "R CRASH signal " << (WIFSIGNALED(st) ? WTERMSIG(st) : -1) << std::endl;
+      }
+      ++k;
+    }
   }
   return 0;
 }
